@@ -76,12 +76,13 @@ CLAIMED = {
         "Coq proof (canonical decompositions, cell-wise reasoning) + exhaustive small-scope correspondence",
         "DESIGN.md 4/C06"),
     "C10": (
-        "14 Coq theorems (coq/Properties/C10.v). Exact at eps = 0: segmentation() covers exactly the covered cells, its "
+        "17 Coq theorems (coq/Properties/C10.v). Exact at eps = 0: segmentation() covers exactly the covered cells, its "
         "pieces are pairwise non-overlapping, bounded by original bounds with no original bound strictly inside, and "
         "every original segment is the union of the pieces it contains; Timeline.get_overlap() is the canonical "
         "decomposition of the cells covered by two distinct segments. For every precision eps >= 0: pieces longer than eps, bounded by "
         "consecutive original bounds, inside the merged support, disjoint, covering each original up to stretches no longer than eps; "
-        "get_overlap sound (shared time or a bridged gap <= eps) and complete (every pairwise intersection longer than eps is reported).",
+        "Timeline.get_overlap and Annotation.get_overlap sound (shared time or a bridged gap <= eps) and complete (every pairwise "
+        "intersection longer than eps - of tracks with different labels for annotations - is reported).",
         "Trusted: Coq kernel + vm_compute; model of segmentation/get_overlap in coq/Model/Timeline.v; harness. "
         "Annotation.get_overlap is tied by the correspondence and its theorem is added with the annotation model.",
         "Coq proof (sorted distinct boundaries, canonical decompositions) + exhaustive small-scope correspondence",
